@@ -2,7 +2,34 @@
 //! with an arbitrary-but-fixed iteration order per instance (models hash order).
 use std::borrow::Borrow;
 
-fn nondet_seed() -> u8 { kani::any() }
+// ---------------------------------------------------------------------------------------------
+// Iteration-order policy.  std's HashSet/HashMap give every instance fresh random keys, so any
+// iteration order of any instance is possible.  Here the order of an instance is a permutation
+// selected by its `seed` (rotation x reversal: all orders for <= 3 elements), drawn when the
+// instance is created and re-drawn on every mutation:
+//   policy 255 (default)  seed = kani::any()  - the order is a solver variable, independent per instance
+//   policy p < 16         seed = p            - one concrete order for every instance
+//   policy 16 + 6a + b    seeds alternate a, b, a, b ... over successive instances (independent
+//                         orders of two structurally equal unions), a, b in 0..6
+// Harnesses whose unions have compound members enumerate concrete policies (a merged symbolic
+// order would make CBMC read payloads of one member through the tag of another).
+static mut ORDER_POLICY: u8 = 255;
+static mut SERIAL: u8 = 0;
+pub fn set_order(p: u8) { unsafe { ORDER_POLICY = p; SERIAL = 0; } }
+fn nondet_seed() -> u8 {
+    let p = unsafe { ORDER_POLICY };
+    if p == 255 {
+        kani::any()
+    } else if p < 16 {
+        p
+    } else {
+        let q = p - 16;
+        let (a, b) = (q / 6, q % 6);
+        let n = unsafe { SERIAL };
+        unsafe { SERIAL = n.wrapping_add(1); }
+        if n % 2 == 0 { a } else { b }
+    }
+}
 
 #[derive(Clone, Debug)]
 pub struct HashSet<T> { items: Vec<T>, seed: u8 }
